@@ -378,6 +378,29 @@ pub fn run(ctx: &Ctx) {
                                 break;
                             }
                         }
+                        // typed footers: the token authenticates the footer BYTES it carries.  Read through a footer
+                        // type whose wire form is not unique (impls::TrimFooter), the genuine token must be accepted,
+                        // and a token whose footer bytes differ but DECODE to the same typed footer must be refused
+                        if !t.footer.is_empty() && t.footer.last() != Some(&b' ') {
+                            let local = purpose == "local";
+                            rep.evaluations += 1;
+                            match (b.unseal_typed_footer)(local, &t.key, &tokstr, &t.aad) {
+                                Ok((m2, f2)) if m2 == t.m && f2 == t.footer => rep.nontrivial(format!("{}|{}|typed-footer|genuine", b.name, purpose)),
+                                other => rep.violation(&format!("c02.{}.{}.typed-footer-rejected", b.name, purpose), format!("{} {}: the genuine token read through a typed footer gives {:?}", b.name, purpose, other.map(|x| (x.0.len(), x.1.len()))), json!({"backend": b.name, "purpose": purpose, "fault": "typed-footer genuine", "key": hex::encode(&t.key), "token": tokstr, "aad": hex::encode(&t.aad)})),
+                            }
+                            for pad in [1usize, 2, 7] {
+                                let mut f2 = t.footer.clone();
+                                f2.extend(std::iter::repeat(b' ').take(pad));
+                                let alias = lab::token_string(b.ver, purpose, &t.payload, &f2);
+                                rep.evaluations += 1;
+                                rep.count("fault.typed-footer-alias");
+                                match (b.unseal_typed_footer)(local, &t.key, &alias, &t.aad) {
+                                    Ok((m2, _)) => rep.violation(&format!("c02.{}.{}.accepted.typed-footer-alias", b.name, purpose), format!("{} {} token accepted although {pad} byte(s) were appended to its footer (the typed footer decodes to the same value): returned {} claim bytes", b.name, purpose, m2.len()), json!({"backend": b.name, "purpose": purpose, "fault": "typed-footer-alias", "key": hex::encode(&t.key), "token": alias, "aad": hex::encode(&t.aad)})),
+                                    Err(e) if e == "panic" => rep.violation(&format!("c02.{}.{}.panic.typed-footer-alias", b.name, purpose), format!("{} panicked", b.name), json!({"backend": b.name, "purpose": purpose, "token": alias})),
+                                    Err(_) => rep.nontrivial(format!("{}|{}|typed-footer-alias|{pad}", b.name, purpose)),
+                                }
+                            }
+                        }
                         let _ = &t.m;
                     }
                 }
